@@ -8,7 +8,8 @@ import time as _real_time
 
 
 class VClock(object):
-    """time(): advances 100 us per call; sleep(d): advances d."""
+    """time(): advances 100 us per call; sleep(d): advances d (ValueError for
+    d < 0, as time.sleep)."""
 
     def __init__(self):
         self.t = 1000.0
@@ -27,6 +28,13 @@ class VClock(object):
     perf_counter = time
 
     def sleep(self, d):
+        # like time.sleep(): a negative length is an error, not a no-op
+        try:
+            negative = bool(d < 0)
+        except TypeError:
+            negative = False
+        if negative:
+            raise ValueError("sleep length must be non-negative")
         try:
             self.t += float(d)
         except TypeError:
